@@ -58,3 +58,44 @@ Theorem C19_setup_preproc_fit_accepts : forall l, NoDup l ->
   (forall x, In x l -> x < length step_table) ->
   check_order step_table l = Ok tt -> apply_check step_table l = Ok tt.
 Proof. exact checked_applied. Qed.
+
+(* ---- the legacy "key = value" format (Model/Legacy.v; names qualified: that model
+   works on lists of characters) ------------------------------------------------------ *)
+Require NV.Model.Legacy NV.Proofs.LegacyP.
+
+(* "legacy profiles load to the same values as their JSON form": a profile whose entries
+   the old format can hold (keys and value texts without surrounding white space, keys
+   without "=", every value of the type the loader derives from DEFAULTS for its key,
+   list elements without commas), written one "key = value" line per entry, loads to
+   exactly these entries, in order -- for EVERY behaviour of float() / int() (oracles)
+   that does not read the words "approach" / "retract" as integers, and every DEFAULTS
+   table that types "segment" as an integer. *)
+Theorem C19_legacy_roundtrip : forall isfloat isint kinds,
+  isint (Legacy.Str "approach") = false /\ isint (Legacy.Str "retract") = false ->
+  Legacy.klookup kinds (Legacy.Str "segment") = Some Legacy.KInt ->
+  forall st, Forall (LegacyP.storable isfloat isint kinds) st -> NoDup (LegacyP.keys st) ->
+  Legacy.load_legacy isfloat isint kinds (LegacyP.render st) = Ok st.
+Proof. exact LegacyP.legacy_roundtrip. Qed.
+
+Example C19_legacy_roundtrip_inhabited :
+  Forall (LegacyP.storable LegacyP.ex_isfloat LegacyP.ex_isint LegacyP.ex_kinds) LegacyP.ex_profile
+  /\ NoDup (LegacyP.keys LegacyP.ex_profile).
+Proof. exact LegacyP.ex_storable. Qed.
+
+(* the words of profiles older than 1.8.0 *)
+Theorem C19_legacy_segment_words : forall isfloat isint kinds,
+  Legacy.klookup kinds (Legacy.Str "segment") = Some Legacy.KInt ->
+  isint (Legacy.Str "0") = true -> isint (Legacy.Str "1") = true ->
+  Legacy.load_legacy isfloat isint kinds [Legacy.Str "segment = approach"]
+    = Ok [(Legacy.Str "segment", Legacy.LInt (Legacy.Str "0"))] /\
+  Legacy.load_legacy isfloat isint kinds [Legacy.Str "segment=retract "]
+    = Ok [(Legacy.Str "segment", Legacy.LInt (Legacy.Str "1"))].
+Proof. intros isfloat isint kinds. exact (LegacyP.legacy_segment_words isfloat isint kinds). Qed.
+
+(* whatever text loads, every entry has the type the command line relies on (a "vary"
+   entry is a bool -- get_fit_params asserts it --, a list holds at least two numbers or
+   is a list of names, ...) *)
+Theorem C19_legacy_typed : forall isfloat isint kinds lines out,
+  Legacy.load_legacy isfloat isint kinds lines = Ok out ->
+  Forall (fun e => LegacyP.typed isfloat isint kinds (fst e) (snd e)) out.
+Proof. exact LegacyP.legacy_typed. Qed.
